@@ -31,7 +31,12 @@ def run(ctx, chk):
                             "decoder, every cbor_encode_*, cbor_serialize and the per-type serializers, "
                             "cbor_serialized_size")
     chk.rule("C13.control", "positive control: the rule reports the seeded violation in /verif/controls")
-    chk.not_decided += ["double release / use after release (decided under C04, T-release)"]
+    chk.rule("C13.blocks", "every raw allocator block is, on every path, attached / returned / handed over / freed exactly once - "
+                           "a block that is dropped is never handed to the installed free (shared with C06.blocks)")
+    chk.not_decided += ["double release / use after release of ITEMS (decided under C04, T-release)"]
+    import ownership as O
+    from props.c06 import check_blocks
+    check_blocks(chk, "C13.blocks", prog, O.PathCache(prog, eff), floor=26)
 
     # ---- rule ext -------------------------------------------------------
     nrefs = 0
